@@ -237,3 +237,30 @@ def tla(v) -> str:
             return "<<>>"
         return "[" + ", ".join(f"{k} |-> {tla(x)}" for k, x in v.items()) + "]"
     raise TypeError(f"cannot print {type(v)} as TLA+")
+
+
+def run_apalache(run: Run, module: str, *, init: str, inv: str, length: int, cinit: str | None = None, timeout=600):
+    """Apalache (symbolic, unbounded integers) on a module of spec/apalache: -> dict(ok, violated, wall_s, output)."""
+    import shutil
+    import subprocess
+    import time
+    src = os.path.join(SPEC_DIR, "apalache", module + ".tla")
+    wd = os.path.join(run.work, "apalache")
+    os.makedirs(wd, exist_ok=True)
+    shutil.copy(src, wd)
+    exe = shutil.which("apalache-mc") or "/opt/veriftools/apalache/bin/apalache-mc"
+    cmd = [exe, "check", f"--init={init}", f"--inv={inv}", f"--length={length}", f"--out-dir={os.path.join(wd, 'out')}"]
+    if cinit:
+        cmd.append(f"--cinit={cinit}")
+    cmd.append(module + ".tla")
+    t0 = time.time()
+    try:
+        p = subprocess.run(cmd, cwd=wd, stdout=subprocess.PIPE, stderr=subprocess.STDOUT, text=True, timeout=timeout)
+    except (OSError, subprocess.TimeoutExpired) as exc:
+        raise MachineryError(f"apalache failed to run on {module}: {exc}") from exc
+    out = p.stdout
+    ok = "EXITCODE: OK" in out
+    violated = "EXITCODE: ERROR (12)" in out
+    if not ok and not violated:
+        raise MachineryError(f"apalache: unexpected result for {module}:\n{out[-1500:]}")
+    return {"name": f"apalache:{module}:{init}->{inv}@{length}", "ok": ok, "violated": violated, "wall_s": round(time.time() - t0, 2), "output": out[-2000:]}
